@@ -10,6 +10,8 @@ import RSV.Model.Codec
 import RSV.Model.SplitJoin
 import RSV.Model.Frames
 import RSV.Model.Kernels
+import RSV.Model.Memo
+import RSV.Model.Bitfield
 /-! line-protocol driver: one op per input line, one result line per op (core only) -/
 namespace Drv
 open RSV RSV.Model
@@ -340,7 +342,10 @@ def opUpd (args : List String) : String :=
       let changed := parseList chs
       if size = 0 then "err ShardNoData" else
       if changed.isEmpty then "err ShardNoData" else      -- checkShards(newDatashards): all nil
-      match rest with
+      -- trailing tokens: a number = length of the first changed shard; e:<list> = empty non-nil entries (= unchanged)
+      -- l:<shard>:<len> = that changed shard has another length: sizes differ -> ErrShardSize
+      if rest.any (fun t => t.startsWith "l:" && ((t.splitOn ":").getD 2 "").toNat? ≠ some size) then "err ShardSize" else
+      match rest.filter (fun t => !t.startsWith "e:" && !t.startsWith "l:") with
       | [nl] => if nl.toNat? ≠ some size then "err ShardSize" else "bad-op"
       | _ =>
       if p = 0 then "ok " else
@@ -516,6 +521,48 @@ def opKernLane (args : List String) : String :=
     | _, _ => "bad-op"
   | _ => "bad-op"
 
+-- tree <d> <p> ; i <key> <tag> ; g <key> ; …   (the trie model; values are tags)
+def opTree (args : List String) : String :=
+  let line := " ".intercalate args
+  match line.splitOn ";" with
+  | _hd :: subs =>
+    let init : Option (Memo.Tree Nat) := some ⟨Memo.Node.mk (some 0) (fun _ => Memo.Node.empty)⟩
+    let (_, outs) := subs.foldl (fun (acc : Option (Memo.Tree Nat) × List String) sub =>
+      match (sub.splitOn " ").filter (· ≠ "") with
+      | ["i", ks, tag] =>
+        let key := parseList ks
+        if key.isEmpty then (acc.1, acc.2 ++ ["err"])      -- errAlreadySet
+        else (Memo.Tree.insert acc.1 key tag.toNat!, acc.2 ++ ["ok"])
+      | ["g", ks] =>
+        let key := parseList ks
+        (acc.1, acc.2 ++ [match Memo.Tree.get acc.1 key with
+          | none => "nil"
+          | some v => if key.isEmpty then "root" else toString v])
+      | _ => acc) (init, [])
+    " ".intercalate outs
+  | [] => "bad-op"
+
+-- bfneed <8|16> <positions> <mips>
+def opBfNeed (args : List String) : String :=
+  match args with
+  | [gf, poss, mipss] =>
+    let bits := if gf == "8" then 8 else 16
+    let pos := parseList poss
+    let outs := (parseList mipss).map fun m =>
+      let step := 1 <<< (min m bits)
+      let n := (1 <<< bits) / step
+      let (cnt, h) := (List.range n).foldl (fun (acc : Nat × UInt64) k =>
+        let v := Bitfield.needed bits pos m (k * step)
+        (if v then acc.1 + 1 else acc.1, fnvStep acc.2 (if v then 1 else 0))) (0, fnvInit)
+      s!"{m}:{cnt}:{hex64 h}"
+    " ".intercalate outs
+  | _ => "bad-op"
+
+def opBfKey (args : List String) : String :=
+  match args with
+  | [poss] => (Bitfield.cacheKey (parseList poss)).foldl (fun s b => s ++ hexByte b) ""
+  | _ => "bad-op"
+
 def hexVal (c : Char) : Nat :=
   if c.isDigit then c.toNat - 48 else if 'a' ≤ c && c ≤ 'f' then c.toNat - 87 else 0
 
@@ -552,6 +599,9 @@ def step (line : String) : String :=
   | "tab" :: args => opTab args
   | "idx" :: args => opIdx args
   | "hist" :: args => opHist args
+  | "bfneed" :: args => opBfNeed args
+  | "bfkey" :: args => opBfKey args
+  | "tree" :: args => opTree args
   | "kern" :: args => opKern args
   | "kernlane" :: args => opKernLane args
   | "mulslice" :: _ => "ok"
